@@ -83,6 +83,11 @@ def gen_calendars(rnd, tier):
               b'END:VEVENT', b'BEGIN:VEVENT', b'UID:ctl-b%d' % i, b'SUMMARY:true', b'DTSTART;VALUE=DATE:20300201', b'END:VEVENT', b'END:VCALENDAR']
         if tier == 'thorough' or i in (0, 3) or rnd.random() < 0.4:
             cals.append(('gen:ctl%d' % i, b'\n'.join(L) + b'\n'))
+    # a byte order mark in front of the stream (and in front of a second calendar): whatever the reader makes of it, it makes the same
+    # of it wherever the pieces end
+    bomcal = [b'BEGIN:VCALENDAR', b'VERSION:2.0', b'BEGIN:VEVENT', b'UID:bom-1', b'SUMMARY:echo bom', b'DTSTART:20300101T000000Z', b'RRULE:FREQ=DAILY;COUNT=2', b'END:VEVENT', b'END:VCALENDAR']
+    cals.append(('gen:bom', b'\xef\xbb\xbf' + b'\n'.join(bomcal) + b'\n'))
+    cals.append(('gen:bom2', b'\n'.join(bomcal) + b'\n' + b'\xef\xbb\xbf' + b'\r\n'.join(bomcal).replace(b'bom-1', b'bom-2') + b'\r\n'))
     # many ATTENDEE lines (they go into a string pool that grows by doubling): lengths drawn at random and lengths made to fill the
     # pool exactly (each address plus its terminator; sums of 16, 32, 64, ... ) with more lines following
     def attcal(lens):
